@@ -155,7 +155,7 @@ package soyhtml
 // issues a further write after a failure.
 //@ func (*state).walk
 //@   like stateMethod
-//@   props C12 C08 C09
+//@   props C12 C08 C09 C03
 //@   splitreturns
 //@   requires[has-frame;C02] len(s.context) >= 1
 //@   at call (*state).walk#* assert[lets-run-in-their-list-frame;C02] typeis(arg1, *ast.LetValueNode) || typeis(arg1, *ast.LetContentNode) ==> typeis(node, *ast.ListNode)
@@ -401,14 +401,14 @@ package soyhtml
 // same frame.
 //@ functype *
 //@   modifies *
-//@   preserves F!github.com/robfig/soy/ast.* F!github.com/robfig/soy/template.* E!Iface E!Int E!Str E!|S!github.com/robfig/soy/template.* G!github.com/robfig/soy/* F!github.com/robfig/soy/soyhtml.Tofu!* F!github.com/robfig/soy/soyhtml.Renderer!* F!github.com/robfig/soy/soyhtml.state!* E!|S!github.com/robfig/soy/soyhtml.scopeframe| M!* MD!* ML
+//@   preserves F!github.com/robfig/soy/ast.* F!github.com/robfig/soy/template.* E!Iface E!Int E!Str E!|S!github.com/robfig/soy/template.* G!github.com/robfig/soy/* F!github.com/robfig/soy/soyhtml.Tofu!* F!github.com/robfig/soy/soyhtml.Renderer!* F!github.com/robfig/soy/soyhtml.state!* E!|S!github.com/robfig/soy/soyhtml.scopeframe| M!* MD!* ML F!github.com/robfig/soy/soyhtml.state!autoescape F!github.com/robfig/soy/soyhtml.state!namespace
 
 //@ functype renderFn
 //@   params s
 //@   props C08 C09
 //@   requires[render-started] renderBase <= allocmark()
 //@   modifies *
-//@   preserves F!github.com/robfig/soy/ast.* F!github.com/robfig/soy/template.* E!Iface E!Int E!Str E!|S!github.com/robfig/soy/template.* G!github.com/robfig/soy/* F!github.com/robfig/soy/soyhtml.Tofu!* F!github.com/robfig/soy/soyhtml.Renderer!* F!github.com/robfig/soy/soyhtml.state!* E!|S!github.com/robfig/soy/soyhtml.scopeframe| M!* MD!* ML
+//@   preserves F!github.com/robfig/soy/ast.* F!github.com/robfig/soy/template.* E!Iface E!Int E!Str E!|S!github.com/robfig/soy/template.* G!github.com/robfig/soy/* F!github.com/robfig/soy/soyhtml.Tofu!* F!github.com/robfig/soy/soyhtml.Renderer!* F!github.com/robfig/soy/soyhtml.state!* E!|S!github.com/robfig/soy/soyhtml.scopeframe| M!* MD!* ML F!github.com/robfig/soy/soyhtml.state!autoescape F!github.com/robfig/soy/soyhtml.state!namespace
 //@   mapwrites owned
 
 // Caller data (C08): a map is "owned" by the render when it was allocated
@@ -426,7 +426,7 @@ package soyhtml
 //@   props C08 C09
 //@   requires[render-started] renderBase <= allocmark()
 //@   modifies *
-//@   preserves F!github.com/robfig/soy/ast.* F!github.com/robfig/soy/template.* E!Iface E!Int E!Str E!|S!github.com/robfig/soy/template.* G!github.com/robfig/soy/* F!github.com/robfig/soy/soyhtml.Tofu!* F!github.com/robfig/soy/soyhtml.Renderer!*
+//@   preserves F!github.com/robfig/soy/ast.* F!github.com/robfig/soy/template.* E!Iface E!Int E!Str E!|S!github.com/robfig/soy/template.* G!github.com/robfig/soy/* F!github.com/robfig/soy/soyhtml.Tofu!* F!github.com/robfig/soy/soyhtml.Renderer!* F!github.com/robfig/soy/soyhtml.state!autoescape F!github.com/robfig/soy/soyhtml.state!namespace
 //@   mapwrites owned
 
 //@ func newScope
